@@ -1,22 +1,27 @@
 package main
 
-// Translator table for C04 (round 4): the lexical constants of the --set parsers, read out of
-// pkg/strvals/parser.go and pkg/strvals/literal_parser.go with go/ast:
+// Translator table for C04 (round 4): the lexical constants and decisions of the --set parsers,
+// read out of pkg/strvals/parser.go and pkg/strvals/literal_parser.go with go/ast and emitted
+// in a form whose obligations are SEMANTIC (Values/Strvals2Tables.v), so that a
+// behaviour-preserving rewrite of the Go text leaves them true:
 //
 //   - MaxIndex and MaxNestedNameLevel (package variables with a literal value);
-//   - for every parsing function of both parsers, the stop sets it builds with
-//     runeSet([]rune{...}) in source order (the bytes the parser treats as metacharacters
-//     in that state);
-//   - the runes runesUntil / runesUntilLiteral / emptyVal / valList compare the current rune
-//     with (`r == '\\'`, `r == ','`, `r != '{'`, ...), per function, with the operator;
-//   - the words typedVal passes to strings.EqualFold, in source order, and the base / bit size
-//     it passes to strconv.ParseInt;
-//   - the conditions of setIndex's range checks and of every MaxNestedNameLevel check, as
-//     source text, per function.
-//
-// Coq proves the model's stop functions equal to these sets on all 256 bytes (vm_compute) and
-// the constants / comparison lists equal to the model's (reflexivity): Props/C04.v,
-// C04_strvals_tables.
+//   - go_stop_sets: for every call of runesUntil / runesUntilLiteral, the function it is in and
+//     the stop set it passes — a runeSet([]rune{...}) call in place, a local variable assigned
+//     from one, or a package-level variable initialised with one, all resolved to the runes;
+//     Coq looks the entries up by function name and proves the model's stop function equal to
+//     the set on all 256 bytes;
+//   - go_rune_sets: per function, the set (sorted, no duplicates) of character literals the
+//     current rune is compared with (==, != or a tagged switch);
+//   - go_typed_rules: typedVal as an ordered list of (test, result) pairs, whatever the syntax
+//     (a chain of if statements, a tagless switch, or a mixture); Coq interprets the list and
+//     proves the resulting function equal to the model's typed_val2 for ALL strings;
+//     strings.EqualFold(val, "w") and val == "w" are different tokens, and the proof knows that
+//     they agree for a word without cased letters;
+//   - the range checks of setIndex, the index / nesting-level / list-length conditions of key()
+//     and listItem() of both parsers, COMPILED to Gallina boolean functions over integers
+//     (index, length, level): Coq proves them equivalent to the model's tests for all integers
+//     by lia, so `index > MaxIndex`, `MaxIndex < index` and `!(index <= MaxIndex)` are the same.
 
 import (
 	"bytes"
@@ -24,8 +29,10 @@ import (
 	"go/ast"
 	"go/printer"
 	"go/token"
+	"sort"
 	"strconv"
 	"strings"
+	"unicode"
 
 	"verif/harness/internal/hx"
 )
@@ -61,7 +68,7 @@ func c04CharLit(e ast.Expr) (int, bool) {
 	return int(rs[0]), true
 }
 
-func c04ExprText(fset *token.FileSet, e ast.Expr) string {
+func c04ExprText(fset *token.FileSet, e ast.Node) string {
 	var b bytes.Buffer
 	printer.Fprint(&b, fset, e)
 	return strings.Join(strings.Fields(b.String()), " ")
@@ -75,20 +82,511 @@ func c04NatList(ns []int) string {
 	return hx.CoqList(it)
 }
 
-type c04FnTable struct {
-	name  string
-	stops [][]int  // runeSet literals, in source order
-	cmps  []string // "== 92", "!= 123": comparisons of a rune variable with a character literal
-	conds []string // conditions that mention MaxIndex / MaxNestedNameLevel / index < 0
+func c04Paren(e ast.Expr) ast.Expr {
+	for {
+		p, ok := e.(*ast.ParenExpr)
+		if !ok {
+			return e
+		}
+		e = p.X
+	}
 }
+
+// c04RuneSetLit: runeSet([]rune{...}) -> the runes.
+func c04RuneSetLit(e ast.Expr) ([]int, bool) {
+	ce, ok := c04Paren(e).(*ast.CallExpr)
+	if !ok || len(ce.Args) != 1 {
+		return nil, false
+	}
+	if id, ok := ce.Fun.(*ast.Ident); !ok || id.Name != "runeSet" {
+		return nil, false
+	}
+	cl, ok := c04Paren(ce.Args[0]).(*ast.CompositeLit)
+	if !ok {
+		return nil, false
+	}
+	set := []int{}
+	for _, el := range cl.Elts {
+		c, ok := c04CharLit(el)
+		if !ok {
+			return nil, false
+		}
+		set = append(set, c)
+	}
+	return set, true
+}
+
+// ---------- range checks compiled to Gallina ----------
+
+type c04Vars struct {
+	index, level, slice string // Go names of the index parameter, the level parameter, the list parameter
+	levelPlus           bool   // the level was incremented just before this condition
+	seen                map[string]bool // which tracked integers the compiled condition mentions
+}
+
+// c04Compile: a Go boolean expression over the tracked integers as a Gallina term of type bool
+// (variables index len level : Z).  relevant = it mentions a tracked integer or a Max constant.
+func c04Compile(e ast.Expr, v c04Vars) (term string, relevant bool, err error) {
+	var num func(e ast.Expr) (string, bool, error)
+	num = func(e ast.Expr) (string, bool, error) {
+		switch x := c04Paren(e).(type) {
+		case *ast.BasicLit:
+			if x.Kind == token.INT {
+				n, err := strconv.ParseInt(x.Value, 0, 64)
+				if err != nil {
+					return "", false, err
+				}
+				if n < 0 {
+					return fmt.Sprintf("(%d)", n), false, nil
+				}
+				return strconv.FormatInt(n, 10), false, nil
+			}
+		case *ast.Ident:
+			switch {
+			case x.Name == "MaxIndex":
+				return "go_max_index", true, nil
+			case x.Name == "MaxNestedNameLevel":
+				return "(Z.of_nat go_max_nested_name_level)", true, nil
+			case v.index != "" && x.Name == v.index:
+				v.seen["index"] = true
+				return "index", true, nil
+			case v.level != "" && x.Name == v.level:
+				v.seen["level"] = true
+				if v.levelPlus {
+					return "(level + 1)", true, nil
+				}
+				return "level", true, nil
+			}
+			return "", false, fmt.Errorf("untracked identifier %s", x.Name)
+		case *ast.CallExpr:
+			if id, ok := x.Fun.(*ast.Ident); ok && id.Name == "len" && len(x.Args) == 1 {
+				if a, ok := c04Paren(x.Args[0]).(*ast.Ident); ok && v.slice != "" && a.Name == v.slice {
+					v.seen["len"] = true
+					return "len", true, nil
+				}
+			}
+			return "", false, fmt.Errorf("untracked call")
+		case *ast.BinaryExpr:
+			if x.Op == token.ADD || x.Op == token.SUB {
+				a, ra, err := num(x.X)
+				if err != nil {
+					return "", false, err
+				}
+				b, rb, err := num(x.Y)
+				if err != nil {
+					return "", false, err
+				}
+				return fmt.Sprintf("(%s %s %s)", a, x.Op.String(), b), ra || rb, nil
+			}
+		case *ast.UnaryExpr:
+			if x.Op == token.SUB {
+				a, ra, err := num(x.X)
+				if err != nil {
+					return "", false, err
+				}
+				return fmt.Sprintf("(- %s)", a), ra, nil
+			}
+		}
+		return "", false, fmt.Errorf("not an integer expression over the tracked variables")
+	}
+	switch x := c04Paren(e).(type) {
+	case *ast.UnaryExpr:
+		if x.Op == token.NOT {
+			t, r, err := c04Compile(x.X, v)
+			if err != nil {
+				return "", false, err
+			}
+			return "(negb " + t + ")", r, nil
+		}
+	case *ast.BinaryExpr:
+		switch x.Op {
+		case token.LAND, token.LOR:
+			a, ra, err := c04Compile(x.X, v)
+			if err != nil {
+				return "", false, err
+			}
+			b, rb, err := c04Compile(x.Y, v)
+			if err != nil {
+				return "", false, err
+			}
+			op := "&&"
+			if x.Op == token.LOR {
+				op = "||"
+			}
+			return fmt.Sprintf("(%s %s %s)", a, op, b), ra || rb, nil
+		case token.LSS, token.GTR, token.LEQ, token.GEQ, token.EQL, token.NEQ:
+			a, ra, err := num(x.X)
+			if err != nil {
+				return "", false, err
+			}
+			b, rb, err := num(x.Y)
+			if err != nil {
+				return "", false, err
+			}
+			op := map[token.Token]string{token.LSS: "<?", token.GTR: ">?", token.LEQ: "<=?", token.GEQ: ">=?", token.EQL: "=?"}[x.Op]
+			if x.Op == token.NEQ {
+				return fmt.Sprintf("(negb (%s =? %s)%%Z)", a, b), ra || rb, nil
+			}
+			return fmt.Sprintf("(%s %s %s)%%Z", a, op, b), ra || rb, nil
+		}
+	}
+	return "", false, fmt.Errorf("not a comparison over the tracked variables")
+}
+
+// c04IntParams: the names of the parameters of type int, in order, and the first slice parameter.
+func c04Params(fd *ast.FuncDecl) (ints []string, slice string) {
+	if fd.Type.Params == nil {
+		return
+	}
+	for _, f := range fd.Type.Params.List {
+		switch t := f.Type.(type) {
+		case *ast.Ident:
+			if t.Name == "int" {
+				for _, n := range f.Names {
+					ints = append(ints, n.Name)
+				}
+			}
+		case *ast.ArrayType:
+			if t.Len == nil && slice == "" && len(f.Names) > 0 {
+				slice = f.Names[0].Name
+			}
+		}
+	}
+	return
+}
+
+// returnsError: the block leaves the function with an error (its last result is not `nil`).
+func c04ReturnsError(b *ast.BlockStmt) bool {
+	for _, st := range b.List {
+		if rs, ok := st.(*ast.ReturnStmt); ok && len(rs.Results) > 0 {
+			last := c04Paren(rs.Results[len(rs.Results)-1])
+			if id, ok := last.(*ast.Ident); ok && id.Name == "nil" {
+				return false
+			}
+			return true
+		}
+	}
+	return false
+}
+
+type c04Checks struct {
+	guards, levelGuards, lenConds, others []string // Gallina lambdas
+}
+
+// c04CollectChecks: every if statement of the function whose condition is a comparison over the
+// tracked integers, classified.
+func c04CollectChecks(fd *ast.FuncDecl, v c04Vars, lam string) (c04Checks, error) {
+	var out c04Checks
+	var firstErr error
+	var walkBlock func(b *ast.BlockStmt)
+	visitIf := func(is *ast.IfStmt, incBefore bool) {
+		vv := v
+		vv.levelPlus = incBefore
+		vv.seen = map[string]bool{}
+		term, rel, err := c04Compile(is.Cond, vv)
+		if err != nil || !rel {
+			return // a condition about something else (err != nil, len(k) > 0, ...)
+		}
+		txt := lam + " " + term
+		mentionsLevel := vv.seen["level"]
+		mentionsLen := vv.seen["len"]
+		switch {
+		case mentionsLevel:
+			out.levelGuards = append(out.levelGuards, txt)
+		case mentionsLen:
+			out.lenConds = append(out.lenConds, txt)
+		case c04ReturnsError(is.Body):
+			out.guards = append(out.guards, txt)
+		default:
+			out.others = append(out.others, txt)
+		}
+	}
+	walkStmts := func(list []ast.Stmt) {
+		inc := false
+		for _, st := range list {
+			switch x := st.(type) {
+			case *ast.IncDecStmt:
+				if id, ok := x.X.(*ast.Ident); ok && v.level != "" && id.Name == v.level && x.Tok == token.INC {
+					inc = true
+					continue
+				}
+			case *ast.IfStmt:
+				visitIf(x, inc)
+			}
+			// nested blocks
+			ast.Inspect(st, func(n ast.Node) bool {
+				switch y := n.(type) {
+				case *ast.FuncLit:
+					return false
+				case *ast.BlockStmt:
+					if n != st {
+						walkBlock(y)
+						return false
+					}
+				case *ast.CaseClause:
+					walkBlock(&ast.BlockStmt{List: y.Body})
+					return false
+				}
+				return true
+			})
+		}
+	}
+	walkBlock = func(b *ast.BlockStmt) {
+		if b != nil {
+			walkStmts(b.List)
+		}
+	}
+	walkBlock(fd.Body)
+	return out, firstErr
+}
+
+// ---------- typedVal as (test, result) rules ----------
+
+func c04StrLitOf(e ast.Expr) (string, bool) { return strLit(c04Paren(e)) }
+
+func c04TypedTest(fset *token.FileSet, e ast.Expr, val, st string) string {
+	switch x := c04Paren(e).(type) {
+	case *ast.Ident:
+		if x.Name == st {
+			return "st"
+		}
+	case *ast.CallExpr:
+		if se, ok := x.Fun.(*ast.SelectorExpr); ok && len(x.Args) == 2 {
+			if pk, ok := se.X.(*ast.Ident); ok && pk.Name == "strings" && se.Sel.Name == "EqualFold" {
+				a, b := c04Paren(x.Args[0]), c04Paren(x.Args[1])
+				if id, ok := a.(*ast.Ident); ok && id.Name == val {
+					if w, ok := c04StrLitOf(b); ok {
+						return "fold:" + w
+					}
+				}
+				if id, ok := b.(*ast.Ident); ok && id.Name == val {
+					if w, ok := c04StrLitOf(a); ok {
+						return "fold:" + w
+					}
+				}
+			}
+		}
+	case *ast.BinaryExpr:
+		if x.Op == token.EQL {
+			a, b := c04Paren(x.X), c04Paren(x.Y)
+			if id, ok := a.(*ast.Ident); ok && id.Name == val {
+				if w, ok := c04StrLitOf(b); ok {
+					return "eq:" + w
+				}
+			}
+			if id, ok := b.(*ast.Ident); ok && id.Name == val {
+				if w, ok := c04StrLitOf(a); ok {
+					return "eq:" + w
+				}
+			}
+		}
+		if x.Op == token.LAND {
+			var atoms []string
+			var flat func(e ast.Expr)
+			flat = func(e ast.Expr) {
+				if b, ok := c04Paren(e).(*ast.BinaryExpr); ok && b.Op == token.LAND {
+					flat(b.X)
+					flat(b.Y)
+					return
+				}
+				atoms = append(atoms, c04TypedAtom(fset, e, val))
+			}
+			flat(x)
+			sort.Strings(atoms)
+			return "and:" + strings.Join(atoms, "&")
+		}
+	}
+	if a := c04TypedAtom(fset, e, val); !strings.HasPrefix(a, "?") {
+		return "and:" + a
+	}
+	return "?:" + c04ExprText(fset, e)
+}
+
+// c04TypedAtom: `len(val) != 0`, `len(val) > 0`, `val != ""` -> nonempty; `val[0] != 'c'`,
+// `!strings.HasPrefix(val, "c")` -> first-ne:<code>.
+func c04TypedAtom(fset *token.FileSet, e ast.Expr, val string) string {
+	isVal := func(e ast.Expr) bool { id, ok := c04Paren(e).(*ast.Ident); return ok && id.Name == val }
+	isLenVal := func(e ast.Expr) bool {
+		ce, ok := c04Paren(e).(*ast.CallExpr)
+		if !ok || len(ce.Args) != 1 {
+			return false
+		}
+		id, ok := ce.Fun.(*ast.Ident)
+		return ok && id.Name == "len" && isVal(ce.Args[0])
+	}
+	isZero := func(e ast.Expr) bool { bl, ok := c04Paren(e).(*ast.BasicLit); return ok && bl.Kind == token.INT && bl.Value == "0" }
+	switch x := c04Paren(e).(type) {
+	case *ast.BinaryExpr:
+		switch {
+		case (x.Op == token.NEQ || x.Op == token.GTR) && isLenVal(x.X) && isZero(x.Y):
+			return "nonempty"
+		case x.Op == token.NEQ && isZero(x.X) && isLenVal(x.Y):
+			return "nonempty"
+		case x.Op == token.NEQ && isVal(x.X):
+			if w, ok := c04StrLitOf(x.Y); ok && w == "" {
+				return "nonempty"
+			}
+		}
+		if x.Op == token.NEQ {
+			if ie, ok := c04Paren(x.X).(*ast.IndexExpr); ok && isVal(ie.X) && isZero(ie.Index) {
+				if c, ok := c04CharLit(c04Paren(x.Y)); ok {
+					return fmt.Sprintf("first-ne:%d", c)
+				}
+			}
+		}
+	case *ast.UnaryExpr:
+		if x.Op == token.NOT {
+			if ce, ok := c04Paren(x.X).(*ast.CallExpr); ok && len(ce.Args) == 2 {
+				if se, ok := ce.Fun.(*ast.SelectorExpr); ok && se.Sel.Name == "HasPrefix" && isVal(ce.Args[0]) {
+					if w, ok := c04StrLitOf(ce.Args[1]); ok && len(w) == 1 {
+						return fmt.Sprintf("first-ne:%d", w[0])
+					}
+				}
+			}
+		}
+	}
+	return "?" + c04ExprText(fset, e)
+}
+
+// c04TypedResult: what a branch does: return a value, or try ParseInt and go on when it fails.
+func c04TypedResult(fset *token.FileSet, body []ast.Stmt, val string) string {
+	for _, st := range body {
+		switch x := st.(type) {
+		case *ast.ReturnStmt:
+			if len(x.Results) != 1 {
+				return "?return"
+			}
+			switch r := c04Paren(x.Results[0]).(type) {
+			case *ast.Ident:
+				switch r.Name {
+				case val:
+					return "str"
+				case "true", "false":
+					return "bool:" + r.Name
+				case "nil":
+					return "null"
+				}
+			case *ast.CallExpr:
+				if id, ok := r.Fun.(*ast.Ident); ok && id.Name == "int64" && len(r.Args) == 1 {
+					if bl, ok := c04Paren(r.Args[0]).(*ast.BasicLit); ok && bl.Kind == token.INT {
+						return "int:" + bl.Value
+					}
+				}
+			case *ast.BasicLit:
+				if r.Kind == token.INT {
+					return "int:" + r.Value
+				}
+			}
+			return "?" + c04ExprText(fset, x)
+		case *ast.IfStmt:
+			// if iv, err := strconv.ParseInt(val, B, S); err == nil { return iv }
+			if as, ok := x.Init.(*ast.AssignStmt); ok && len(as.Rhs) == 1 && len(as.Lhs) == 2 {
+				if ce, ok := as.Rhs[0].(*ast.CallExpr); ok && len(ce.Args) == 3 {
+					if se, ok := ce.Fun.(*ast.SelectorExpr); ok && se.Sel.Name == "ParseInt" {
+						if id, ok := c04Paren(ce.Args[0]).(*ast.Ident); ok && id.Name == val {
+							b, okb := c04Paren(ce.Args[1]).(*ast.BasicLit)
+							s, oks := c04Paren(ce.Args[2]).(*ast.BasicLit)
+							cond := c04ExprText(fset, x.Cond)
+							iv, _ := as.Lhs[0].(*ast.Ident)
+							ret := ""
+							if len(x.Body.List) == 1 {
+								ret = c04ExprText(fset, x.Body.List[0])
+							}
+							if okb && oks && iv != nil && (cond == "err == nil" || cond == "nil == err") && ret == "return "+iv.Name && x.Else == nil {
+								return "parseint:" + b.Value + ":" + s.Value
+							}
+						}
+					}
+				}
+			}
+			return "?" + c04ExprText(fset, x)
+		}
+	}
+	return "?nothing"
+}
+
+// c04TypedRules: the body of typedVal as ordered rules; a rule that can complete without
+// returning (parseint) carries the number of following rules to skip (the rest of its switch).
+func c04TypedRules(fset *token.FileSet, fd *ast.FuncDecl) ([][2]string, error) {
+	val, st := "", ""
+	if fd.Type.Params != nil {
+		for _, f := range fd.Type.Params.List {
+			if id, ok := f.Type.(*ast.Ident); ok && id.Name == "bool" && len(f.Names) > 0 {
+				st = f.Names[0].Name
+			}
+		}
+	}
+	var rules [][2]string
+	for _, s := range fd.Body.List {
+		switch x := s.(type) {
+		case *ast.AssignStmt:
+			// val := string(v)
+			if len(x.Lhs) == 1 && len(x.Rhs) == 1 {
+				if ce, ok := x.Rhs[0].(*ast.CallExpr); ok {
+					if id, ok := ce.Fun.(*ast.Ident); ok && id.Name == "string" {
+						val = c04IdentName(x.Lhs[0])
+					}
+				}
+			}
+		case *ast.IfStmt:
+			if x.Else != nil || x.Init != nil {
+				return nil, fmt.Errorf("typedVal: if statement with else/init at top level")
+			}
+			rules = append(rules, [2]string{c04TypedTest(fset, x.Cond, val, st), c04TypedResult(fset, x.Body.List, val)})
+		case *ast.SwitchStmt:
+			if x.Tag != nil || x.Init != nil {
+				return nil, fmt.Errorf("typedVal: tagged switch")
+			}
+			var sw [][2]string
+			for _, c := range x.Body.List {
+				cc := c.(*ast.CaseClause)
+				res := c04TypedResult(fset, cc.Body, val)
+				if cc.List == nil {
+					sw = append(sw, [2]string{"else", res})
+					continue
+				}
+				for _, e := range cc.List {
+					sw = append(sw, [2]string{c04TypedTest(fset, e, val, st), res})
+				}
+			}
+			for i := range sw {
+				if strings.HasPrefix(sw[i][1], "parseint:") && len(sw)-1-i > 0 {
+					sw[i][1] += fmt.Sprintf(":skip%d", len(sw)-1-i)
+				}
+			}
+			rules = append(rules, sw...)
+		case *ast.ReturnStmt:
+			rules = append(rules, [2]string{"else", c04TypedResult(fset, []ast.Stmt{x}, val)})
+		}
+	}
+	if val == "" {
+		return nil, fmt.Errorf("typedVal: `val := string(v)` not found")
+	}
+	return rules, nil
+}
+
+func c04Cased(w string) bool {
+	for _, r := range w {
+		if unicode.IsLetter(r) && (unicode.ToUpper(r) != r || unicode.ToLower(r) != r) {
+			return true
+		}
+	}
+	return false
+}
+
+// ---------- the table ----------
 
 func genStrvalsTable(repo string) (string, error) {
 	var out strings.Builder
-	var fns []c04FnTable
-	var words []string
-	var parseIntArgs []int
 	consts := map[string]int64{}
 	isSpace := []string{}
+	type fnInfo struct {
+		name string
+		fd   *ast.FuncDecl
+		fset *token.FileSet
+	}
+	var fns []fnInfo
+	pkgSets := map[string][]int{} // package-level `var x = runeSet(...)`
 	for _, rel := range []string{"pkg/strvals/parser.go", "pkg/strvals/literal_parser.go"} {
 		f, fset, err := parseFile(repo, rel)
 		if err != nil {
@@ -106,8 +604,11 @@ func genStrvalsTable(repo string) (string, error) {
 						continue
 					}
 					for i, n := range vs.Names {
-						if (n.Name == "MaxIndex" || n.Name == "MaxNestedNameLevel") && i < len(vs.Values) {
-							bl, ok := vs.Values[i].(*ast.BasicLit)
+						if i >= len(vs.Values) {
+							continue
+						}
+						if n.Name == "MaxIndex" || n.Name == "MaxNestedNameLevel" {
+							bl, ok := c04Paren(vs.Values[i]).(*ast.BasicLit)
 							if !ok || bl.Kind != token.INT {
 								return "", fmt.Errorf("%s: %s is not an integer literal", rel, n.Name)
 							}
@@ -117,72 +618,14 @@ func genStrvalsTable(repo string) (string, error) {
 							}
 							consts[n.Name] = v
 						}
+						if set, ok := c04RuneSetLit(vs.Values[i]); ok {
+							pkgSets[n.Name] = set
+						}
 					}
 				}
 			case *ast.FuncDecl:
-				if x.Body == nil {
-					continue
-				}
-				t := c04FnTable{name: c04FuncName(x)}
-				ast.Inspect(x.Body, func(n ast.Node) bool {
-					switch e := n.(type) {
-					case *ast.CallExpr:
-						if id, ok := e.Fun.(*ast.Ident); ok && id.Name == "runeSet" && len(e.Args) == 1 {
-							if cl, ok := e.Args[0].(*ast.CompositeLit); ok {
-								set := []int{}
-								for _, el := range cl.Elts {
-									if c, ok := c04CharLit(el); ok {
-										set = append(set, c)
-									} else {
-										set = append(set, -1) // not a character literal: fails the obligation
-									}
-								}
-								t.stops = append(t.stops, set)
-							}
-						}
-						if se, ok := e.Fun.(*ast.SelectorExpr); ok {
-							if pk, ok := se.X.(*ast.Ident); ok {
-								switch pk.Name + "." + se.Sel.Name {
-								case "strings.EqualFold":
-									if t.name == "typedVal" && len(e.Args) == 2 {
-										if s, ok := strLit(e.Args[1]); ok {
-											words = append(words, s)
-										}
-									}
-								case "strconv.ParseInt":
-									if t.name == "typedVal" {
-										for _, a := range e.Args[1:] {
-											if bl, ok := a.(*ast.BasicLit); ok && bl.Kind == token.INT {
-												v, _ := strconv.Atoi(bl.Value)
-												parseIntArgs = append(parseIntArgs, v)
-											}
-										}
-									}
-								case "unicode.IsSpace":
-									isSpace = append(isSpace, t.name)
-								}
-							}
-						}
-					case *ast.BinaryExpr:
-						if e.Op == token.EQL || e.Op == token.NEQ {
-							if c, ok := c04CharLit(e.Y); ok {
-								if _, isIdent := e.X.(*ast.Ident); isIdent {
-									t.cmps = append(t.cmps, fmt.Sprintf("%s %d", e.Op.String(), c))
-								}
-							}
-						}
-						if e.Op == token.LSS || e.Op == token.GTR || e.Op == token.LEQ || e.Op == token.GEQ {
-							txt := c04ExprText(fset, e)
-							if strings.Contains(txt, "MaxIndex") || strings.Contains(txt, "MaxNestedNameLevel") ||
-								txt == "index < 0" || txt == "i < 0" || strings.HasPrefix(txt, "len(list) ") {
-								t.conds = append(t.conds, txt)
-							}
-						}
-					}
-					return true
-				})
-				if len(t.stops) > 0 || len(t.cmps) > 0 || len(t.conds) > 0 {
-					fns = append(fns, t)
+				if x.Body != nil {
+					fns = append(fns, fnInfo{c04FuncName(x), x, fset})
 				}
 			}
 		}
@@ -192,30 +635,144 @@ func genStrvalsTable(repo string) (string, error) {
 			return "", fmt.Errorf("pkg/strvals: variable %s with a literal value not found", n)
 		}
 	}
-	fmt.Fprintf(&out, "(* pkg/strvals/parser.go, literal_parser.go: lexical constants of the --set parsers *)\n")
-	fmt.Fprintf(&out, "Definition go_max_index : Z := %d%%Z.\n", consts["MaxIndex"])
-	fmt.Fprintf(&out, "Definition go_max_nested_name_level : nat := %d.\n\n", consts["MaxNestedNameLevel"])
-	var stops, cmps, conds []string
-	for _, t := range fns {
-		for _, s := range t.stops {
-			stops = append(stops, hx.CoqPair(hx.CoqStr(t.name), c04NatList(s)))
+
+	var stops, runeSets []string
+	var typedRules [][2]string
+	checks := map[string]c04Checks{}
+	for _, fi := range fns {
+		// local variables assigned from runeSet(...)
+		local := map[string][]int{}
+		cmpSet := map[int]bool{}
+		ast.Inspect(fi.fd.Body, func(n ast.Node) bool {
+			switch e := n.(type) {
+			case *ast.AssignStmt:
+				for i, l := range e.Lhs {
+					if i < len(e.Rhs) && len(e.Lhs) == len(e.Rhs) {
+						if set, ok := c04RuneSetLit(e.Rhs[i]); ok && c04IdentName(l) != "" {
+							local[c04IdentName(l)] = set
+						}
+					}
+				}
+			case *ast.CallExpr:
+				if id, ok := e.Fun.(*ast.Ident); ok && (id.Name == "runesUntil" || id.Name == "runesUntilLiteral") && len(e.Args) == 2 {
+					var set []int
+					found := false
+					if s, ok := c04RuneSetLit(e.Args[1]); ok {
+						set, found = s, true
+					} else if nm := c04IdentName(c04Paren(e.Args[1])); nm != "" {
+						if s, ok := local[nm]; ok {
+							set, found = s, true
+						} else if s, ok := pkgSets[nm]; ok {
+							set, found = s, true
+						}
+					}
+					if !found {
+						set = []int{-1} // unresolved: cannot satisfy the obligation
+					}
+					stops = append(stops, hx.CoqPair(hx.CoqStr(fi.name), c04NatList(set)))
+				}
+				if se, ok := e.Fun.(*ast.SelectorExpr); ok {
+					if pk, ok := se.X.(*ast.Ident); ok && pk.Name == "unicode" && se.Sel.Name == "IsSpace" {
+						isSpace = append(isSpace, fi.name)
+					}
+				}
+			case *ast.BinaryExpr:
+				if e.Op == token.EQL || e.Op == token.NEQ {
+					if c, ok := c04CharLit(c04Paren(e.Y)); ok {
+						if _, isIdent := c04Paren(e.X).(*ast.Ident); isIdent {
+							cmpSet[c] = true
+						}
+					}
+					if c, ok := c04CharLit(c04Paren(e.X)); ok {
+						if _, isIdent := c04Paren(e.Y).(*ast.Ident); isIdent {
+							cmpSet[c] = true
+						}
+					}
+				}
+			case *ast.SwitchStmt:
+				if e.Tag != nil {
+					if _, isIdent := c04Paren(e.Tag).(*ast.Ident); isIdent {
+						for _, c := range e.Body.List {
+							for _, v := range c.(*ast.CaseClause).List {
+								if ch, ok := c04CharLit(c04Paren(v)); ok {
+									cmpSet[ch] = true
+								}
+							}
+						}
+					}
+				}
+			}
+			return true
+		})
+		if len(cmpSet) > 0 {
+			var cs []int
+			for c := range cmpSet {
+				cs = append(cs, c)
+			}
+			sort.Ints(cs)
+			runeSets = append(runeSets, hx.CoqPair(hx.CoqStr(fi.name), c04NatList(cs)))
 		}
-		if len(t.cmps) > 0 {
-			cmps = append(cmps, hx.CoqPair(hx.CoqStr(t.name), hx.CoqStrList(t.cmps)))
-		}
-		if len(t.conds) > 0 {
-			conds = append(conds, hx.CoqPair(hx.CoqStr(t.name), hx.CoqStrList(t.conds)))
+		ints, slice := c04Params(fi.fd)
+		short := fi.fd.Name.Name
+		switch short {
+		case "setIndex":
+			if len(ints) >= 1 {
+				c, _ := c04CollectChecks(fi.fd, c04Vars{index: ints[0], slice: slice}, "fun index len level : Z =>")
+				checks[fi.name] = c
+			}
+		case "listItem":
+			if len(ints) >= 2 {
+				c, _ := c04CollectChecks(fi.fd, c04Vars{index: ints[0], level: ints[1], slice: slice}, "fun index len level : Z =>")
+				checks[fi.name] = c
+			}
+		case "key":
+			if len(ints) >= 1 {
+				c, _ := c04CollectChecks(fi.fd, c04Vars{level: ints[0]}, "fun index len level : Z =>")
+				checks[fi.name] = c
+			}
+		case "typedVal":
+			r, err := c04TypedRules(fi.fset, fi.fd)
+			if err != nil {
+				return "", err
+			}
+			typedRules = r
 		}
 	}
-	fmt.Fprintf(&out, "(* runeSet([]rune{...}) literals per function, in source order: the stop runes of each state *)\n")
+	if typedRules == nil {
+		return "", fmt.Errorf("pkg/strvals: func typedVal not found")
+	}
+
+	fmt.Fprintf(&out, "(* pkg/strvals/parser.go, literal_parser.go: lexical constants and decisions of the --set parsers *)\n")
+	fmt.Fprintf(&out, "Definition go_max_index : Z := %d%%Z.\n", consts["MaxIndex"])
+	fmt.Fprintf(&out, "Definition go_max_nested_name_level : nat := %d.\n\n", consts["MaxNestedNameLevel"])
+	fmt.Fprintf(&out, "(* the stop set of every runesUntil / runesUntilLiteral call, by function (runeSet literals, local and\n   package-level variables resolved) *)\n")
 	fmt.Fprintf(&out, "Definition go_stop_sets : list (string * list nat) :=\n  %s.\n\n", hx.CoqList(stops))
-	fmt.Fprintf(&out, "(* comparisons of the current rune with a character literal, per function *)\n")
-	fmt.Fprintf(&out, "Definition go_rune_cmps : list (string * list string) :=\n  %s.\n\n", hx.CoqList(cmps))
-	fmt.Fprintf(&out, "(* range checks on indexes and nesting levels, per function, as source text *)\n")
-	fmt.Fprintf(&out, "Definition go_range_checks : list (string * list string) :=\n  %s.\n\n", hx.CoqList(conds))
-	fmt.Fprintf(&out, "(* typedVal: the words given to strings.EqualFold in source order; base and bit size of strconv.ParseInt *)\n")
-	fmt.Fprintf(&out, "Definition go_typed_words : list string := %s.\n", hx.CoqStrList(words))
-	fmt.Fprintf(&out, "Definition go_parse_int_args : list nat := %s.\n", c04NatList(parseIntArgs))
-	fmt.Fprintf(&out, "Definition go_is_space_users : list string := %s.\n", hx.CoqStrList(isSpace))
+	fmt.Fprintf(&out, "(* the character literals the current rune is compared with, by function (sorted set) *)\n")
+	fmt.Fprintf(&out, "Definition go_rune_sets : list (string * list nat) :=\n  %s.\n\n", hx.CoqList(runeSets))
+	var rl []string
+	for _, r := range typedRules {
+		rl = append(rl, hx.CoqPair(hx.CoqStr(r[0]), hx.CoqStr(r[1])))
+	}
+	fmt.Fprintf(&out, "(* typedVal as ordered (test, result) rules *)\n")
+	fmt.Fprintf(&out, "Definition go_typed_rules : list (string * string) :=\n  %s.\n\n", hx.CoqList(rl))
+	fmt.Fprintf(&out, "Definition go_is_space_users : list string := %s.\n\n", hx.CoqStrList(isSpace))
+	fmt.Fprintf(&out, "(* range checks compiled to boolean functions of (index, length of the list, nesting level);\n   the level is the value after the increment that precedes the test, where there is one *)\n")
+	names := make([]string, 0, len(checks))
+	for n := range checks {
+		names = append(names, n)
+	}
+	sort.Strings(names)
+	emit := func(def string, pick func(c04Checks) []string) {
+		var it []string
+		for _, n := range names {
+			it = append(it, hx.CoqPair(hx.CoqStr(n), "["+strings.Join(pick(checks[n]), ";\n      ")+"]"))
+		}
+		fmt.Fprintf(&out, "Definition %s : list (string * list (Z -> Z -> Z -> bool)) :=\n  [%s].\n\n", def, strings.Join(it, ";\n   "))
+	}
+	emit("go_error_guards", func(c c04Checks) []string { return c.guards })
+	emit("go_level_guards", func(c c04Checks) []string { return c.levelGuards })
+	emit("go_len_conds", func(c c04Checks) []string { return c.lenConds })
+	emit("go_other_conds", func(c c04Checks) []string { return c.others })
+	_ = c04Cased
 	return out.String(), nil
 }
